@@ -62,6 +62,12 @@ CHECKS = {
         note="The original's points are the library's untransformed point(t); the matrix is applied by harness arithmetic. Circle/Ellipse own transformed decomposition under non-conformal matrices is the known finding KF-ROUNDSHAPE-TRANSFORMED (pinned by a test).",
         ref="5/C02",
     ),
+    "C08": dict(
+        technique="property-based testing: constructed extremum structures, matrix classes and containers against a sampling + golden-section oracle of the true extent",
+        text="Beziers with constructed per-axis extremum structure (0/1/2 interior extrema, flat axis, near-linear cubics around the 1e-8 cut-off, scales 1e-3..1e3), arcs of all rotation classes and extents from 1e-3 to beyond a full turn; paths, subpath views and basic shapes under the 10 matrix classes with transformed and with_stroke in both values; groups, nested groups, use instances and the svg root. The reported box must be ordered, contain the refined extent (1e-9 scale-relative) and touch it on all four sides (1e-7), grown by the effective half stroke width only when a stroke is painted; containers must equal the union of their rendered leaves or be None. Exploration.",
+        note="Extent oracle: 97 samples per segment plus golden-section refinement of every near-top local extremum of the harness' own evaluation of the segment (verified against point(t)); arcs get a conditioning term and their own closure gap. Circle/Ellipse own boxes under non-conformal matrices are KF-ROUNDSHAPE-TRANSFORMED.",
+        ref="5/C08",
+    ),
 }
 
 REASON_PENDING = "no check registered yet in this build; the design (DESIGN.md section 5) covers it with property-based testing"
